@@ -134,7 +134,111 @@ def _structure(repo):
                 direct.add(id(c.args[0]))
     wrapped_calls = [c for c in _calls([async_dec[0]]) if _dotted(c.func) == "wrapped_func"]
     cancel_ok = bool(wrapped_calls) and all(id(c) in direct for c in wrapped_calls)
-    return names[0], fin_ok, pool_cm, closes and raises, wf, cancel_ok
+    per_call_why = _per_call_selection(sync_dec[0])
+    no_state_why = _keeps_no_state(tree)
+    return names[0], fin_ok, pool_cm, closes and raises, wf, cancel_ok, per_call_why, no_state_why
+
+
+MUTATORS = {"setdefault", "update", "append", "add", "pop", "popitem", "insert", "extend", "clear", "remove", "discard",
+            "__setitem__", "__setattr__", "__delitem__", "__delattr__"}
+SETTERS = {"setattr", "delattr", "vars", "globals", "locals"}
+
+
+def _reachable(tree, root):
+    """module-level functions of decorators.py that `root` can reach by name (called, or handed to partial(...))"""
+    funcs = {n.name: n for n in tree.body if isinstance(n, (ast.FunctionDef, ast.AsyncFunctionDef))}
+    seen, todo = [], [root]
+    while todo:
+        nm = todo.pop()
+        if nm in seen:
+            continue
+        seen.append(nm)
+        for n in ast.walk(funcs[nm]):
+            if isinstance(n, ast.Name) and isinstance(n.ctx, ast.Load) and n.id in funcs and n.id not in seen:
+                todo.append(n.id)
+    return [funcs[n] for n in seen]
+
+
+def _keeps_no_state(tree):
+    """nothing reachable from timeout_wrapper keeps anything from one call to the next: no store into an attribute or
+    a subscript (of self, of the transport, of a module-level table ...), no global / nonlocal, no setattr-like call,
+    no container-mutating method call, no access to __dict__, no decorator (memoisation) on any of these functions.
+    Syntactic, and stricter than needed: anything of that kind makes the fact false."""
+    why = []
+    for f in _reachable(tree, "timeout_wrapper"):
+        for n in ast.walk(f):
+            if isinstance(n, (ast.FunctionDef, ast.AsyncFunctionDef)) and n.decorator_list:
+                why.append("%s: decorated function %s" % (f.name, n.name))
+            if isinstance(n, (ast.Attribute, ast.Subscript)) and isinstance(n.ctx, (ast.Store, ast.Del)):
+                why.append("%s: store into %s at line %d" % (f.name, _dotted(n) if isinstance(n, ast.Attribute) else "a subscript", n.lineno))
+            if isinstance(n, (ast.Global, ast.Nonlocal)):
+                why.append("%s: %s %s" % (f.name, type(n).__name__.lower(), ",".join(n.names)))
+            if isinstance(n, ast.Attribute) and n.attr == "__dict__":
+                why.append("%s: __dict__ at line %d" % (f.name, n.lineno))
+            if isinstance(n, ast.Call):
+                fn = n.func
+                if isinstance(fn, ast.Name) and fn.id in SETTERS:
+                    why.append("%s: %s() at line %d" % (f.name, fn.id, n.lineno))
+                if isinstance(fn, ast.Attribute) and fn.attr in MUTATORS:
+                    why.append("%s: .%s() at line %d" % (f.name, fn.attr, n.lineno))
+    return why
+
+
+def _is_call_of(node, dotted):
+    return isinstance(node, ast.Call) and _dotted(node.func) == dotted and not node.args and not node.keywords
+
+
+def _per_call_selection(sync_dec):
+    """the sync decorate() picks the worker-thread mechanism by a test evaluated in the wrapper itself, on every call,
+    over exactly the three things select_mech looks at: the class name of the transport of THIS call
+    (`<name> = transport.__class__.__name__` assigned in decorate(), `<name> in (<constants>)`), `_IS_WINDOWS`, and
+    `threading.current_thread() is not threading.main_thread()`; the test guards a `return _multiprocessing_timeout(...)`
+    and the signal branch (signal.signal / signal.setitimer) comes after it, in decorate() itself."""
+    why = []
+    guards = []
+    for n in sync_dec.body:
+        if isinstance(n, ast.If) and any(isinstance(r, ast.Return) and isinstance(r.value, ast.Call)
+                                         and _dotted(r.value.func) == "_multiprocessing_timeout" for r in n.body):
+            guards.append(n)
+    if len(guards) != 1:
+        return ["decorate(): expected exactly one top-level `if` returning _multiprocessing_timeout(...), found %d" % len(guards)]
+    g = guards[0]
+    if g.orelse:
+        why.append("the mechanism test has an else branch")
+    t = g.test
+    if not (isinstance(t, ast.BoolOp) and isinstance(t.op, ast.Or) and len(t.values) == 3):
+        return why + ["the mechanism test is not a disjunction of three terms"]
+    kinds = {}
+    for v in t.values:
+        if isinstance(v, ast.Compare) and len(v.ops) == 1 and isinstance(v.ops[0], ast.In) and isinstance(v.left, ast.Name):
+            kinds["class"] = v.left.id
+        elif isinstance(v, ast.Name) and v.id == "_IS_WINDOWS":
+            kinds["windows"] = True
+        elif (isinstance(v, ast.Compare) and len(v.ops) == 1 and isinstance(v.ops[0], ast.IsNot)
+              and _is_call_of(v.left, "threading.current_thread") and _is_call_of(v.comparators[0], "threading.main_thread")):
+            kinds["thread"] = True
+        else:
+            why.append("unexpected term in the mechanism test at line %d" % v.lineno)
+    if set(kinds) != {"class", "windows", "thread"}:
+        return why + ["the mechanism test does not consist of class name / _IS_WINDOWS / current thread"]
+    # the class name is that of the transport of this very call, bound in decorate() before the test
+    bound = [n for n in sync_dec.body if isinstance(n, ast.Assign) and len(n.targets) == 1 and isinstance(n.targets[0], ast.Name)
+             and n.targets[0].id == kinds["class"]]
+    if not (len(bound) == 1 and _dotted(bound[0].value) == "transport.__class__.__name__" and bound[0].lineno < g.lineno):
+        why.append("%s is not bound once to transport.__class__.__name__ before the test" % kinds["class"])
+    tl = [n for n in sync_dec.body if isinstance(n, ast.Assign) and isinstance(n.targets[0], ast.Tuple)
+          and [getattr(e, "id", None) for e in n.targets[0].elts][:1] == ["transport"] and isinstance(n.value, ast.Call)
+          and _dotted(n.value.func) == "_get_transport_logger_timeout"]
+    if len(tl) != 1:
+        why.append("transport is not bound once from _get_transport_logger_timeout(...) in decorate()")
+    stores = [n for n in ast.walk(sync_dec) if isinstance(n, ast.Name) and isinstance(n.ctx, ast.Store)
+              and n.id in ("transport", kinds["class"])]
+    if len(stores) != 2:
+        why.append("transport / %s assigned more than once" % kinds["class"])
+    after = [c for n in sync_dec.body if n.lineno > g.lineno for c in _calls([n])]
+    if not {"signal.signal", "signal.setitimer"} <= {_dotted(c.func) for c in after}:
+        why.append("the signal branch does not follow the mechanism test in decorate()")
+    return why
 
 
 def generate(outdir, repo=None):
@@ -156,7 +260,7 @@ def generate(outdir, repo=None):
     for k, v in mp.items():
         if decorators._get_timeout_message(k) != v:
             raise ValueError("_get_timeout_message(%r) is not the map entry" % k)
-    thread_classes, fin_ok, pool_cm, closes, wf, cancel_ok = _structure(repo)
+    thread_classes, fin_ok, pool_cm, closes, wf, cancel_ok, per_call_why, no_state_why = _structure(repo)
     decorated = _decorated(repo)
     nt = Settings.NO_TERMINATE_ON_TIMEOUT
     if not isinstance(nt, bool):
@@ -179,7 +283,10 @@ def generate(outdir, repo=None):
          "Definition gen_pool_joins_worker : bool := %s." % _bool(pool_cm),
          "Definition gen_handle_timeout_closes_and_raises : bool := %s." % _bool(closes),
          "Definition gen_async_wait_for_handled : bool := %s." % _bool(wf),
-         "Definition gen_async_cancel_reaches_wrapped : bool := %s." % _bool(cancel_ok)]
+         "Definition gen_async_cancel_reaches_wrapped : bool := %s." % _bool(cancel_ok),
+         "(* %s *)" % ("; ".join(per_call_why + no_state_why).replace("*", "x") or "no finding"),
+         "Definition gen_selection_per_call_context : bool := %s." % _bool(not per_call_why),
+         "Definition gen_wrapper_keeps_no_state : bool := %s." % _bool(not no_state_why)]
     text = "\n".join(L) + "\n"
     path = os.path.join(outdir, "Gen_Timeout.v")
     if not os.path.exists(path) or open(path).read() != text:
@@ -189,7 +296,9 @@ def generate(outdir, repo=None):
             "no_terminate_default": nt, "timeout_ops_default": t_ops, "timeout_transport_default": t_tr,
             "ast": {"signal_finally_restores": fin_ok, "pool_joins_worker": pool_cm,
                     "handle_timeout_closes_and_raises": closes, "async_wait_for_handled": wf,
-                    "async_cancel_reaches_wrapped": cancel_ok}}
+                    "async_cancel_reaches_wrapped": cancel_ok,
+                    "selection_per_call_context": not per_call_why, "wrapper_keeps_no_state": not no_state_why,
+                    "per_call_findings": per_call_why + no_state_why}}
     return path, info
 
 
